@@ -170,12 +170,12 @@ func VH_c13_sender() {
 				_ = s.ResultSuccess(hdr, src)
 			case 5:
 				_ = s.ResultError(hdr, src, model.NewErrorTypeFromString("x"))
-			case 6:
-				_, _ = s.Subscribe(src, dsts[i%2], model.FeatureTypeTypeLoadControl)
+			case 6: // (a different server feature each time: an identical unanswered call would rightly be withheld)
+				_, _ = s.Subscribe(src, vhAddr("A", []uint{1}, uint(10+i)), model.FeatureTypeTypeLoadControl)
 			case 7:
-				_, _ = s.Bind(src, dsts[i%2], model.FeatureTypeTypeLoadControl)
+				_, _ = s.Bind(src, vhAddr("A", []uint{1}, uint(10+i)), model.FeatureTypeTypeLoadControl)
 			case 8:
-				_, _ = s.Unsubscribe(src, dsts[i%2])
+				_, _ = s.Unsubscribe(src, vhAddr("A", []uint{1}, uint(10+i)))
 			}
 			verifrt.Assert("every-call-writes-one-datagram", len(wr.msgs) == before+1)
 			if len(wr.msgs) == before+1 {
